@@ -150,6 +150,104 @@ func runC19(r *core.Run) {
 			return checkTraversal(root, nodes, fmt.Sprint("tree ", c.Code))
 		})
 
+	NR := core.Pick(r, 6, 8)
+	core.Clause(r, "iterator-reuse", core.Opts{Rule: "one iter.Seq value obtained once per traversal and used as a history: run fully twice in a row; run again after an early break at every position; a full inner run nested inside the outer run at every outer position (outer must continue unharmed); on every ordered tree up to the node bound; non-trivial = at least 2 nodes"},
+		func(emit func(c19Tree) bool) {
+			enum.TreesUpTo(NR, func(c []int) bool { return emit(c19Tree{append([]int(nil), c...)}) })
+		},
+		func(c c19Tree) core.Outcome {
+			root, nodes := buildTree(c.Code)
+			evals := 0
+			for pass := 0; pass < 2; pass++ {
+				name := []string{"PreOrder", "PostOrder"}[pass]
+				var want []*newick.Node
+				if pass == 0 {
+					refPre(root, &want)
+				} else {
+					refPost(root, &want)
+				}
+				seq := root.PreOrder()
+				if pass == 1 {
+					seq = root.PostOrder()
+				}
+				same := func(got []*newick.Node) bool {
+					if len(got) != len(want) {
+						return false
+					}
+					for i := range got {
+						if got[i] != want[i] {
+							return false
+						}
+					}
+					return true
+				}
+				var fail string
+				p := catch(func() {
+					for rep := 0; rep < 2; rep++ {
+						var got []*newick.Node
+						for n := range seq {
+							got = append(got, n)
+						}
+						evals++
+						if !same(got) {
+							fail = fmt.Sprintf("%s: run %d of the same iterator value yields %d nodes in the wrong order/number (want %d)", name, rep+1, len(got), len(want))
+							return
+						}
+					}
+					for stop := 1; stop <= len(nodes); stop++ {
+						k := 0
+						for range seq {
+							k++
+							if k == stop {
+								break
+							}
+						}
+						var got []*newick.Node
+						for n := range seq {
+							got = append(got, n)
+						}
+						evals += 2
+						if !same(got) {
+							fail = fmt.Sprintf("%s: a full run after a run that was stopped at node %d yields %d nodes in the wrong order/number (want %d)", name, stop, len(got), len(want))
+							return
+						}
+					}
+					for at := 1; at <= len(nodes); at++ {
+						var outer []*newick.Node
+						for n := range seq {
+							outer = append(outer, n)
+							if len(outer) == at {
+								var inner []*newick.Node
+								for m := range seq {
+									inner = append(inner, m)
+								}
+								evals++
+								if !same(inner) {
+									fail = fmt.Sprintf("%s: a run nested inside another run of the same iterator value (at outer node %d) yields %d nodes (want %d)", name, at, len(inner), len(want))
+									return
+								}
+							}
+							if len(outer) > 2*len(nodes) {
+								break
+							}
+						}
+						evals++
+						if !same(outer) {
+							fail = fmt.Sprintf("%s: after a nested run at outer node %d the outer run yields %d nodes in the wrong order/number (want %d)", name, at, len(outer), len(want))
+							return
+						}
+					}
+				})
+				if p != "" {
+					return core.Failf("%s on tree %v, iterator value reused: panic: %s", name, c.Code, p)
+				}
+				if fail != "" {
+					return core.Failf("tree %v: %s", c.Code, fail)
+				}
+			}
+			return core.Outcome{Class: fmt.Sprint("nodes=", len(nodes)), Nontrivial: len(nodes) >= 2, Evals: evals}
+		})
+
 	core.Clause(r, "degenerate", core.Opts{Serial: true, Rule: "chain of depth n, star with n children, comb (chain with a leaf at every level), for the listed n; non-trivial = all"},
 		func(emit func(c19Big) bool) {
 			for _, n := range []int{1000, 100000, 1000000} {
